@@ -2,14 +2,6 @@ import Rain.Lemmas.DurRecover
 /-
 Proofs of the durability theorems stated in `Rain/Props/Durable.lean`.
 -/
-namespace Rain.Durable
-
-/-- needed by the `ops[i]!` notation in the non-vacuity example of `Props/Durable.lean`
-(`Op` derives only `Repr` in `Rain/Durable.lean`, which is left untouched) -/
-instance : Inhabited Op := ⟨.noop⟩
-
-end Rain.Durable
-
 namespace Rain.Durable.Lemmas
 open Rain Rain.Lsm Rain.Durable
 
@@ -45,10 +37,19 @@ theorem safe_appendWal (d : Disk) (bs : List WBatch) (n : Nat) (b : WBatch) (h :
 theorem safe_createWal (d : Disk) (bs : List WBatch) (n : Nat) (h : Safe d bs)
     (hok : ok d (.createWal n) = true) : Safe (apply d (.createWal n)) bs := by
   obtain ⟨⟨hm, hw, ht⟩, c, r, hc, hrc, hr, hl⟩ := safe_elim h
-  simp only [ok, decide_eq_true_eq, List.all_eq_true, walNumbers] at hok
-  have hlt : ∀ x ∈ d.wals, x.1 < n := fun x hx => hok x.1 (List.mem_map.2 ⟨x, hx, rfl⟩)
-  refine safe_intro ⟨hm, nodup_update _ _ _ hw, ht⟩ c r hc ?_ hl
-  exact recoverFrom_transfer' d _ c r hrc rfl (fun _ _ => rfl) (walEntries_createWal d.wals n r.walNo hlt)
+  simp only [ok, Bool.or_eq_true, Bool.and_eq_true] at hok
+  rcases hok with hok | ⟨hempty, _⟩
+  · -- a new number, larger than every existing one
+    simp only [decide_eq_true_eq, List.all_eq_true, walNumbers] at hok
+    have hlt : ∀ x ∈ d.wals, x.1 < n := fun x hx => hok x.1 (List.mem_map.2 ⟨x, hx, rfl⟩)
+    refine safe_intro ⟨hm, nodup_update _ _ _ hw, ht⟩ c r hc ?_ hl
+    exact recoverFrom_transfer' d _ c r hrc rfl (fun _ _ => rfl) (walEntries_createWal d.wals n r.walNo hlt)
+  · -- re-creation of an existing, still empty WAL: the image does not change at all
+    have hlk : lookup d.wals n = some [] := by simpa using hempty
+    have hd : apply d (.createWal n) = d := by
+      show { d with wals := update d.wals n [] } = d
+      rw [update_same d.wals n [] hw hlk]
+    rw [hd]; exact h
 
 theorem safe_removeWal (d : Disk) (bs : List WBatch) (n : Nat) (h : Safe d bs)
     (hok : ok d (.removeWal n) = true) : Safe (apply d (.removeWal n)) bs := by
